@@ -149,8 +149,9 @@ def explore(driver, rep, part=None, max_depth=None, max_states=None,
                 caps.append(f'depth cap {max_depth} reached with '
                             f'{len(frontier)} unexpanded states')
                 break
-            tasks = [frontier[i:i + chunk]
-                     for i in range(0, len(frontier), chunk)]
+            step = max(1, min(chunk, len(frontier) // (workers * 4) or 1))
+            tasks = [frontier[i:i + step]
+                     for i in range(0, len(frontier), step)]
             if pool is not None and len(tasks) > 1:
                 results = pool.imap(_expand, tasks)
             else:
